@@ -376,6 +376,15 @@ theorem hit_handle_presents_latest (cap : Nat) (prep : String → Except Nat Str
       (execThrough (execThrough cells e.cell srv).2.2 h.cell srv).1 = srv :=
   ⟨e, (hit_shares_cell cap prep st k ch t e hp hg).1, (shared_cell_presents_latest cells e.cell srv).1⟩
 
+/-- SERVER-SIDE EVICTION with the extension: the re-PREPARE's PREPARED announces the node's current metadata, which
+`reprepare` stores in the statement object (`newCell`); the re-sent EXECUTE presents it and the node has nothing to
+announce - whatever the object held before, for every handle on that cell -/
+theorem evicted_execution_presents_announced (cells : Cells) (c srv : Nat) :
+    (execThrough (newCell cells c srv) c srv).1 = srv ∧ (execThrough (newCell cells c srv) c srv).2.1 = false ∧
+    ∀ c', c' ≠ c → (execThrough (newCell cells c srv) c srv).2.2 c' = cells c' := by
+  refine ⟨by simp [execThrough, newCell], by simp [execThrough, newCell], fun c' h => ?_⟩
+  simp [execThrough, newCell, h]
+
 /-- the two handles of `concurrent_misses_do_not_share` (cells 0 and 1, both prepared under version 0) after the
 schema moved to version 1: an execution through the first is told; the second STILL presents version 0 and is told
 again; the cached statement is the second one -/
